@@ -1296,5 +1296,454 @@ mod tests {
         assert_eq!(section_size(&[f(":authority", "www.example.com"), f("a", "bc")]), 57 + 35);
     }
 
-    // @@TESTS2@@
+    // ----- dynamic table -----
+
+    #[test]
+    fn dyn_table_fifo_and_eviction() {
+        let mut t = DynTable::new(100);
+        assert_eq!((t.capacity(), t.size(), t.inserted(), t.dropped()), (100, 0, 0, 0));
+        assert_eq!(t.get_abs(0), None);
+        t.insert(f("a", "1")).unwrap(); // 34
+        t.insert(f("b", "2")).unwrap(); // 68
+        assert_eq!((t.size(), t.inserted(), t.dropped()), (68, 2, 0));
+        t.insert(f("c", "3")).unwrap(); // 102 > 100: evict "a"
+        assert_eq!((t.size(), t.inserted(), t.dropped()), (68, 3, 1));
+        assert_eq!(t.get_abs(0), None);
+        assert_eq!(t.get_abs(1), Some(&f("b", "2")));
+        assert_eq!(t.get_abs(2), Some(&f("c", "3")));
+        assert_eq!(t.get_abs(3), None);
+        // Exactly fitting entry evicts everything else.
+        let big = (vec![b'n'; 34], vec![b'v'; 34]); // 100
+        t.insert(big.clone()).unwrap();
+        assert_eq!((t.size(), t.inserted(), t.dropped(), t.len()), (100, 4, 3, 1));
+        assert_eq!(t.get_abs(3), Some(&big));
+        // One byte too large: error, table unchanged.
+        let too_big = (vec![b'n'; 35], vec![b'v'; 34]);
+        assert_eq!(t.insert(too_big), Err(QErr::CapacityExceeded));
+        assert_eq!((t.size(), t.inserted(), t.dropped(), t.len()), (100, 4, 3, 1));
+        // Shrinking evicts.
+        t.set_capacity(99).unwrap();
+        assert_eq!((t.capacity(), t.size(), t.inserted(), t.dropped()), (99, 0, 4, 4));
+        assert!(t.is_empty());
+        // Capacity 0 accepts nothing, not even the empty field (size 32).
+        t.set_capacity(0).unwrap();
+        assert_eq!(t.insert(f("", "")), Err(QErr::CapacityExceeded));
+        t.set_capacity(32).unwrap();
+        t.insert(f("", "")).unwrap();
+        assert_eq!((t.size(), t.inserted(), t.dropped()), (32, 5, 4));
+    }
+
+    // ----- encoder / decoder streams -----
+
+    #[test]
+    fn encoder_stream_patterns_and_truncation() {
+        let instrs = vec![
+            EncInstr::SetCapacity(220),
+            EncInstr::InsertNameRefStatic { index: 0, value: b"www.example.com".to_vec() },
+            EncInstr::InsertNameRefDynamic { rel_index: 70, value: b"".to_vec() },
+            EncInstr::InsertLiteral { name: b"custom-key".to_vec(), value: b"custom-value".to_vec() },
+            EncInstr::InsertLiteral { name: vec![b'n'; 31], value: vec![0xff; 127] },
+            EncInstr::Duplicate(2),
+            EncInstr::Duplicate(31),
+            EncInstr::SetCapacity(0),
+            EncInstr::SetCapacity(30),
+            EncInstr::SetCapacity(31),
+        ];
+        for &h in &[false, true] {
+            let mut b = Vec::new();
+            let mut ends = Vec::new();
+            for i in &instrs {
+                b.extend(encode_enc_instr(i, h));
+                ends.push(b.len());
+            }
+            let parsed = parse_encoder_stream(&b).unwrap();
+            assert_eq!(parsed.len(), instrs.len());
+            for (k, (i, end)) in parsed.iter().enumerate() {
+                assert_eq!(i, &instrs[k]);
+                assert_eq!(*end, ends[k]);
+            }
+            // Every cut point yields exactly the instructions that are complete.
+            for cut in 0..=b.len() {
+                let p = parse_encoder_stream(&b[..cut]).unwrap();
+                let complete = ends.iter().filter(|&&e| e <= cut).count();
+                assert_eq!(p.len(), complete, "cut {cut}");
+                if let Some((_, e)) = p.last() {
+                    assert_eq!(*e, ends[complete - 1]);
+                }
+            }
+        }
+        // Hand-assembled first bytes.
+        assert_eq!(parse_enc_instr(&[0x3f, 0xbd, 0x01]), Ok((EncInstr::SetCapacity(220), 3)));
+        assert_eq!(parse_enc_instr(&[0x02]), Ok((EncInstr::Duplicate(2), 1)));
+        assert_eq!(
+            parse_enc_instr(&[0xc1, 0x01, b'/']),
+            Ok((EncInstr::InsertNameRefStatic { index: 1, value: b"/".to_vec() }, 3))
+        );
+        assert_eq!(
+            parse_enc_instr(&[0x81, 0x00]),
+            Ok((EncInstr::InsertNameRefDynamic { rel_index: 1, value: vec![] }, 2))
+        );
+        assert_eq!(
+            parse_enc_instr(&[0x41, b'n', 0x01, b'v']),
+            Ok((EncInstr::InsertLiteral { name: b"n".to_vec(), value: b"v".to_vec() }, 4))
+        );
+        // Huffman name on the encoder stream: 01 H=1 len=1, '0' = 00000 + 111.
+        assert_eq!(
+            parse_enc_instr(&[0b0110_0001, 0b0000_0111, 0x00]),
+            Ok((EncInstr::InsertLiteral { name: b"0".to_vec(), value: vec![] }, 3))
+        );
+        // Malformed (not truncated): bad Huffman padding, integer overflow.
+        assert_eq!(
+            parse_encoder_stream(&[0x02, 0b0110_0001, 0b0000_0110, 0x00]),
+            Err(QErr::Str(StrErr::Huffman(HuffErr::PaddingNotOnes)))
+        );
+        let mut b = vec![0x02];
+        b.extend(qint::encode(5, 0b001, 1 << 62));
+        assert_eq!(parse_encoder_stream(&b), Err(QErr::Int(IntErr::Overflow)));
+        assert_eq!(parse_encoder_stream(&[]), Ok(vec![]));
+    }
+
+    #[test]
+    fn decoder_stream_patterns() {
+        let instrs = vec![
+            DecInstr::SectionAck(4),
+            DecInstr::InsertCountIncrement(1),
+            DecInstr::StreamCancel(8),
+            DecInstr::SectionAck(126),
+            DecInstr::SectionAck(127),
+            DecInstr::SectionAck((1 << 62) - 1),
+            DecInstr::StreamCancel(62),
+            DecInstr::StreamCancel(63),
+            DecInstr::InsertCountIncrement(0),
+            DecInstr::InsertCountIncrement(63),
+            DecInstr::InsertCountIncrement(1000),
+        ];
+        let mut b = Vec::new();
+        let mut ends = Vec::new();
+        for i in &instrs {
+            b.extend(encode_dec_instr(i));
+            ends.push(b.len());
+        }
+        assert_eq!(&b[..3], &[0x84, 0x01, 0x48]);
+        let parsed = parse_decoder_stream(&b).unwrap();
+        assert_eq!(parsed.iter().map(|p| p.0.clone()).collect::<Vec<_>>(), instrs);
+        assert_eq!(parsed.iter().map(|p| p.1).collect::<Vec<_>>(), ends);
+        for cut in 0..=b.len() {
+            let p = parse_decoder_stream(&b[..cut]).unwrap();
+            assert_eq!(p.len(), ends.iter().filter(|&&e| e <= cut).count());
+        }
+        let bad = qint::encode(7, 1, 1 << 62);
+        assert_eq!(parse_decoder_stream(&bad), Err(QErr::Int(IntErr::Overflow)));
+    }
+
+    // ----- Required Insert Count -----
+
+    #[test]
+    fn required_insert_count_reconstruction() {
+        // Capacity 0..31: MaxEntries = 0, every non-zero encoding is invalid.
+        for cap in [0u64, 31] {
+            assert_eq!(reconstruct_required_insert_count(0, cap, 0), Ok(0));
+            assert_eq!(
+                reconstruct_required_insert_count(1, cap, 0),
+                Err(QErr::InvalidRequiredInsertCount)
+            );
+        }
+        // The worked example in Section 4.5.1.1: capacity 100 -> MaxEntries 3, FullRange 6;
+        // decoder has received 10 inserts; encoded value 4 -> Required Insert Count 9.
+        assert_eq!(reconstruct_required_insert_count(4, 100, 10), Ok(9));
+        // Appendix B.2 / B.4 values with capacity 220 (MaxEntries 6, FullRange 12).
+        assert_eq!(reconstruct_required_insert_count(3, 220, 2), Ok(2));
+        assert_eq!(reconstruct_required_insert_count(5, 220, 4), Ok(4));
+        // Encoded value above FullRange.
+        assert_eq!(reconstruct_required_insert_count(12, 220, 5), Ok(11));
+        assert_eq!(
+            reconstruct_required_insert_count(12, 220, 0), // 11 > MaxValue 6, 11 <= FullRange
+            Err(QErr::InvalidRequiredInsertCount)
+        );
+        assert_eq!(
+            reconstruct_required_insert_count(13, 220, 5),
+            Err(QErr::InvalidRequiredInsertCount)
+        );
+        // Would have to be <= 0 after unwrapping: with 0 inserts MaxValue = 6, encoded 8 -> 7 >
+        // 6 and 7 <= FullRange.
+        assert_eq!(
+            reconstruct_required_insert_count(8, 220, 0),
+            Err(QErr::InvalidRequiredInsertCount)
+        );
+        assert_eq!(reconstruct_required_insert_count(7, 220, 0), Ok(6));
+        // Exhaustive consistency with the encoder formula: for every decoder state and every
+        // RIC the encoder may legally use (ric <= inserts + MaxEntries, and ric > inserts -
+        // MaxEntries because at most MaxEntries entries are live ... the window the RFC
+        // guarantees is (MaxValue - FullRange, MaxValue]).
+        for cap in [32u64, 64, 100, 220, 4096] {
+            let me = cap / 32;
+            let fr = 2 * me;
+            for inserts in 0..(5 * fr + 3) {
+                let max_value = inserts + me;
+                let lo = max_value.saturating_sub(fr) + 1; // smallest value in the window, >= 1
+                for ric in lo.max(1)..=max_value {
+                    let enc = encode_required_insert_count(ric, cap);
+                    assert!(enc >= 1 && enc <= fr);
+                    assert_eq!(
+                        reconstruct_required_insert_count(enc, cap, inserts),
+                        Ok(ric),
+                        "cap {cap} inserts {inserts} ric {ric}"
+                    );
+                }
+                // And every encoded value in 1..=FullRange either errors or lands in the window.
+                for enc in 1..=fr {
+                    match reconstruct_required_insert_count(enc, cap, inserts) {
+                        Ok(r) => {
+                            assert!(r >= 1 && r <= max_value && r + fr > max_value);
+                            assert_eq!(encode_required_insert_count(r, cap), enc);
+                        }
+                        Err(e) => assert_eq!(e, QErr::InvalidRequiredInsertCount),
+                    }
+                }
+            }
+        }
+    }
+
+    // ----- RFC 9204 Appendix B.2 .. B.5 -----
+
+    /// Feeds an encoder stream through the parser and the decoder.
+    fn feed(d: &mut RefDecoder, stream: &[u8]) -> Vec<EncInstr> {
+        let parsed = parse_encoder_stream(stream).unwrap();
+        assert_eq!(parsed.last().map(|p| p.1).unwrap_or(0), stream.len(), "complete instructions");
+        let mut out = Vec::new();
+        for (i, _) in parsed {
+            d.apply(&i).unwrap();
+            out.push(i);
+        }
+        out
+    }
+
+    #[test]
+    fn rfc9204_appendix_b2_to_b5() {
+        let mut d = RefDecoder::new(220);
+
+        // B.2 Dynamic Table
+        let enc = unhex(
+            "3fbd01 c00f 7777 772e 6578 616d 706c 652e 636f 6d c10c 2f73 616d 706c 652f 7061 7468",
+        );
+        let section = unhex("0381 10 11");
+        // Before the encoder stream arrives the section is blocked on Required Insert Count 2.
+        assert_eq!(d.decode_section(&section), Err(QErr::Blocked(2)));
+        let instrs = feed(&mut d, &enc);
+        assert_eq!(
+            instrs,
+            vec![
+                EncInstr::SetCapacity(220),
+                EncInstr::InsertNameRefStatic { index: 0, value: b"www.example.com".to_vec() },
+                EncInstr::InsertNameRefStatic { index: 1, value: b"/sample/path".to_vec() },
+            ]
+        );
+        assert_eq!(d.table.capacity(), 220);
+        assert_eq!(d.table.inserted(), 2);
+        assert_eq!(d.table.size(), 57 + 49);
+        assert_eq!(d.table.get_abs(0), Some(&f(":authority", "www.example.com")));
+        assert_eq!(d.table.get_abs(1), Some(&f(":path", "/sample/path")));
+        let s = parse_section(&section).unwrap();
+        assert_eq!(
+            s,
+            Section {
+                encoded_ric: 3,
+                sign: true,
+                delta_base: 1,
+                reprs: vec![Repr::IndexedPostBase(0), Repr::IndexedPostBase(1)],
+            }
+        );
+        let dec = d.decode_section(&section).unwrap();
+        assert_eq!(
+            dec,
+            DecodedSection {
+                fields: vec![f(":authority", "www.example.com"), f(":path", "/sample/path")],
+                required_insert_count: 2,
+                base: 0,
+                refs: vec![0, 1],
+            }
+        );
+        // A stateless decoder must refuse it.
+        assert_eq!(decode_static_only(&section), Err(QErr::NonZeroRequiredInsertCount(3)));
+
+        // B.3 Speculative Insert: custom-key=custom-value, then Section Ack 4 / ICI 1.
+        let mut enc = vec![0x4a];
+        enc.extend_from_slice(b"custom-key");
+        enc.push(0x0c);
+        enc.extend_from_slice(b"custom-value");
+        let instrs = feed(&mut d, &enc);
+        assert_eq!(
+            instrs,
+            vec![EncInstr::InsertLiteral {
+                name: b"custom-key".to_vec(),
+                value: b"custom-value".to_vec()
+            }]
+        );
+        assert_eq!(d.table.inserted(), 3);
+        assert_eq!(d.table.size(), 57 + 49 + 54);
+        assert_eq!(
+            parse_decoder_stream(&[0x84, 0x01]),
+            Ok(vec![(DecInstr::SectionAck(4), 1), (DecInstr::InsertCountIncrement(1), 2)])
+        );
+
+        // B.4 Duplicate Instruction, Stream Cancellation.
+        let instrs = feed(&mut d, &[0x02]);
+        assert_eq!(instrs, vec![EncInstr::Duplicate(2)]);
+        assert_eq!(d.table.inserted(), 4);
+        assert_eq!(d.table.size(), 217);
+        assert_eq!(d.table.get_abs(3), Some(&f(":authority", "www.example.com")));
+        let section = unhex("0500 80 c1 81");
+        let dec = d.decode_section(&section).unwrap();
+        assert_eq!(
+            dec,
+            DecodedSection {
+                fields: vec![
+                    f(":authority", "www.example.com"),
+                    f(":path", "/"),
+                    f("custom-key", "custom-value"),
+                ],
+                required_insert_count: 4,
+                base: 4,
+                refs: vec![3, 2],
+            }
+        );
+        assert_eq!(parse_decoder_stream(&[0x48]), Ok(vec![(DecInstr::StreamCancel(8), 1)]));
+
+        // B.5 Dynamic Table Insert, Eviction: custom-key=custom-value2 evicts absolute index 0.
+        let mut enc = vec![0x81, 0x0d];
+        enc.extend_from_slice(b"custom-value2");
+        let instrs = feed(&mut d, &enc);
+        assert_eq!(
+            instrs,
+            vec![EncInstr::InsertNameRefDynamic { rel_index: 1, value: b"custom-value2".to_vec() }]
+        );
+        assert_eq!(d.table.inserted(), 5);
+        assert_eq!(d.table.dropped(), 1);
+        assert_eq!(d.table.size(), 215);
+        assert_eq!(d.table.get_abs(0), None);
+        assert_eq!(d.table.get_abs(1), Some(&f(":path", "/sample/path")));
+        assert_eq!(d.table.get_abs(4), Some(&f("custom-key", "custom-value2")));
+        // The B.2 section now references an evicted entry.
+        assert_eq!(d.decode_section(&unhex("0381 10 11")), Err(QErr::InvalidIndex));
+    }
+
+    // ----- reference decoder: index arithmetic and errors -----
+
+    #[test]
+    fn ref_decoder_indexing() {
+        let mut d = RefDecoder::new_with_capacity(4096, 4096);
+        for i in 0..5u8 {
+            d.apply(&EncInstr::InsertLiteral { name: vec![b'n', b'0' + i], value: vec![b'v', b'0' + i] })
+                .unwrap();
+        }
+        let e = |i: u8| (vec![b'n', b'0' + i], vec![b'v', b'0' + i]);
+        let enc_ric = |r| encode_required_insert_count(r, 4096);
+
+        // Base = 3 (RIC 5, S=1, Delta 1): relative 0,1,2 -> abs 2,1,0; post-base 0,1 -> abs 3,4.
+        let reprs = vec![
+            Repr::IndexedDynamic(0),
+            Repr::IndexedDynamic(2),
+            Repr::IndexedPostBase(0),
+            Repr::IndexedPostBase(1),
+            Repr::LiteralNameRefDynamic { index: 1, never_indexed: true, value: b"x".to_vec() },
+            Repr::LiteralPostBaseNameRef { index: 1, never_indexed: false, value: b"y".to_vec() },
+            Repr::IndexedStatic(25),
+        ];
+        let b = encode_section_raw(enc_ric(5), true, 1, &reprs, true);
+        let dec = d.decode_section(&b).unwrap();
+        assert_eq!(dec.required_insert_count, 5);
+        assert_eq!(dec.base, 3);
+        assert_eq!(dec.refs, vec![2, 0, 3, 4, 1, 4]);
+        assert_eq!(
+            dec.fields,
+            vec![
+                e(2),
+                e(0),
+                e(3),
+                e(4),
+                (b"n1".to_vec(), b"x".to_vec()),
+                (b"n4".to_vec(), b"y".to_vec()),
+                f(":status", "200"),
+            ]
+        );
+
+        // Relative index reaching below absolute 0.
+        let b = encode_section_raw(enc_ric(5), true, 1, &[Repr::IndexedDynamic(3)], false);
+        assert_eq!(d.decode_section(&b), Err(QErr::InvalidIndex));
+        // Post-base index at / beyond Required Insert Count (Section 2.2.3).
+        let b = encode_section_raw(enc_ric(5), true, 1, &[Repr::IndexedPostBase(2)], false);
+        assert_eq!(d.decode_section(&b), Err(QErr::InvalidIndex));
+        // Entry exists (abs 4) but RIC says 4: reference >= RIC is invalid.
+        let b = encode_section_raw(enc_ric(4), false, 1, &[Repr::IndexedDynamic(0)], false);
+        assert_eq!(d.decode_section(&b), Err(QErr::InvalidIndex));
+        let b = encode_section_raw(enc_ric(4), false, 1, &[Repr::IndexedDynamic(1)], false);
+        assert_eq!(d.decode_section(&b).map(|s| (s.base, s.refs)), Ok((5, vec![3])));
+        // Negative base.
+        let b = encode_section_raw(enc_ric(5), true, 5, &[], false);
+        assert_eq!(d.decode_section(&b), Err(QErr::InvalidIndex));
+        let b = encode_section_raw(enc_ric(5), true, 4, &[Repr::IndexedPostBase(0)], false);
+        assert_eq!(d.decode_section(&b).map(|s| (s.base, s.refs)), Ok((0, vec![0])));
+        // Blocked.
+        let b = encode_section_raw(enc_ric(6), false, 0, &[Repr::IndexedDynamic(0)], false);
+        assert_eq!(d.decode_section(&b), Err(QErr::Blocked(6)));
+        d.apply(&EncInstr::Duplicate(0)).unwrap();
+        assert_eq!(d.decode_section(&b).map(|s| s.fields), Ok(vec![e(4)]));
+        // RIC = 0 with a dynamic reference.
+        let b = encode_section_raw(0, false, 3, &[Repr::IndexedDynamic(0)], false);
+        assert_eq!(d.decode_section(&b), Err(QErr::InvalidIndex));
+        // Static index out of range through the general decoder.
+        let b = encode_section_raw(0, false, 0, &[Repr::IndexedStatic(99)], false);
+        assert_eq!(d.decode_section(&b), Err(QErr::StaticIndexOutOfRange(99)));
+        // Truncated field line.
+        assert_eq!(d.decode_section(&[0x00, 0x00, 0x51, 0x05, b'a']), Err(QErr::Truncated));
+        assert_eq!(d.decode_section(&[0x00]), Err(QErr::Truncated));
+    }
+
+    #[test]
+    fn ref_decoder_encoder_stream_errors() {
+        let mut d = RefDecoder::new(100);
+        assert_eq!(d.table.capacity(), 0);
+        // Nothing fits before Set Dynamic Table Capacity.
+        assert_eq!(
+            d.apply(&EncInstr::InsertLiteral { name: vec![], value: vec![] }),
+            Err(QErr::CapacityExceeded)
+        );
+        assert_eq!(d.apply(&EncInstr::SetCapacity(101)), Err(QErr::CapacityExceeded));
+        assert_eq!(d.table.capacity(), 0);
+        d.apply(&EncInstr::SetCapacity(100)).unwrap();
+        assert_eq!(d.apply(&EncInstr::Duplicate(0)), Err(QErr::InvalidIndex));
+        assert_eq!(
+            d.apply(&EncInstr::InsertNameRefDynamic { rel_index: 0, value: vec![] }),
+            Err(QErr::InvalidIndex)
+        );
+        assert_eq!(
+            d.apply(&EncInstr::InsertNameRefStatic { index: 99, value: vec![] }),
+            Err(QErr::StaticIndexOutOfRange(99))
+        );
+        d.apply(&EncInstr::InsertNameRefStatic { index: 98, value: b"v".to_vec() }).unwrap(); // 15+1+32 = 48
+        d.apply(&EncInstr::InsertLiteral { name: b"k".to_vec(), value: b"w".to_vec() }).unwrap(); // 34
+        assert_eq!((d.table.inserted(), d.table.size()), (2, 82));
+        assert_eq!(d.apply(&EncInstr::Duplicate(2)), Err(QErr::InvalidIndex));
+        // Name reference to an entry that this very insertion evicts (legal, Section 3.2.2).
+        d.apply(&EncInstr::InsertNameRefDynamic { rel_index: 1, value: b"zz".to_vec() }).unwrap(); // 49
+        assert_eq!((d.table.inserted(), d.table.dropped(), d.table.size()), (3, 1, 83));
+        assert_eq!(d.table.get_abs(2), Some(&f("x-frame-options", "zz")));
+        // Relative index now pointing at the evicted entry.
+        assert_eq!(d.apply(&EncInstr::Duplicate(2)), Err(QErr::InvalidIndex));
+        // Duplicate of the oldest live entry, which the duplication itself evicts.
+        d.apply(&EncInstr::Duplicate(1)).unwrap();
+        assert_eq!((d.table.inserted(), d.table.dropped(), d.table.size()), (4, 2, 83));
+        assert_eq!(d.table.get_abs(3), Some(&f("k", "w")));
+        // Entry larger than the capacity.
+        assert_eq!(
+            d.apply(&EncInstr::InsertLiteral { name: vec![b'n'; 69], value: vec![] }),
+            Err(QErr::CapacityExceeded)
+        );
+        assert_eq!((d.table.inserted(), d.table.dropped(), d.table.size()), (4, 2, 83));
+        // Reducing the capacity evicts; 0 empties the table.
+        d.apply(&EncInstr::SetCapacity(40)).unwrap();
+        assert_eq!((d.table.inserted(), d.table.dropped(), d.table.size()), (4, 3, 34));
+        d.apply(&EncInstr::SetCapacity(0)).unwrap();
+        assert_eq!((d.table.inserted(), d.table.dropped(), d.table.size()), (4, 4, 0));
+    }
 }
